@@ -13,6 +13,9 @@ TABLE = {
     "Perturb_c11_quick": dict(BASE, PKinds="KCmt", MaxEdits=1, DumpMod=16),
     "Perturb_c11_thorough": dict(BASE, PKinds="KCmt", MaxEdits=1, MaxStmts=4),
     "Perturb_c11_sim": dict(SIM, PKinds="KCmt", MaxEdits=5),
+    # two statements on one line (';') with a trailing comment behind them
+    "Perturb_c11j_quick": dict(BASE, PKinds="KCmtJoin", MaxEdits=1, DumpMod=9),
+    "Perturb_c11j_thorough": dict(BASE, PKinds="KCmtJoin", MaxEdits=1, MaxStmts=4, DumpMod=1),
     # comment placements on the statements that hold a character literal (the literal continued around a comment line, a trailing
     # comment on a line continued after the literal): one such statement per program, every placement
     "Perturb_c11s_quick": dict(BASE, PKinds="KCmt", MaxEdits=1, MaxStmts=2, UnitKinds="SubOnly", ConKinds="Empty", SpecKinds="Empty", Contains="FALSE",
